@@ -282,6 +282,10 @@ func main() {
 	}
 	modelCases(rep, seed, thorough)
 	inProcessReplays(rep, seed, thorough)
+	tallyTies(rep, seed, thorough)
+	upoTies(rep, seed, thorough)
+	pruneTies(rep, seed, thorough)
+	rebuildTies(rep)
 	for _, it := range ref.BfCases {
 		rep.Case("batchfees|"+it, true)
 	}
